@@ -696,12 +696,6 @@ class Fxp():
             else:
                 vdtype = val.dtype
 
-            # narrow NumPy types are widened: scaling, bias removal and size estimation must not wrap or round in the width of the input type
-            if val.dtype.kind in 'iu' and val.dtype.itemsize < 8:
-                val = val.astype(np.int64)
-            elif val.dtype.kind == 'f' and val.dtype.itemsize < 8:
-                val = val.astype(np.float64)
-            
             try:
                 if isinstance(val, np.float128):
                     val = np.array(float(val))
@@ -751,6 +745,15 @@ class Fxp():
         # convert to (numpy) ndarray
         _val_in = val
         val = np.array(val)
+
+        # narrow NumPy types (also as elements of a list or tuple) are widened: scaling, bias removal and size estimation
+        # must not wrap or round in the width of the input type
+        if val.dtype.kind in 'iu' and val.dtype.itemsize < 8:
+            val = val.astype(np.int64)
+        elif val.dtype.kind == 'f' and val.dtype.itemsize < 8:
+            val = val.astype(np.float64)
+        elif val.dtype.kind == 'c' and val.dtype.itemsize < 16:
+            val = val.astype(np.complex128)
 
         # a list of python integers beyond 64 bits is turned into floats by numpy: keep the integers exact
         if isinstance(_val_in, (int, list, tuple)) and val.dtype.kind in 'fu' and val.size > 0 and np.max(np.abs(val)) >= 2**63:
